@@ -30,6 +30,10 @@ pub struct Pool {
     pub gts: Vec<Vec<GTElement>>,
     pub off_subgroup: Vec<Signature>,
     pub torsion: Vec<Signature>,
+    /// public keys outside the subgroup: pool key k plus a G1 torsion point, as (key, k).
+    /// The pairing of such a key with any G2 point equals that of the honest key, so only
+    /// the subgroup check of the decoder rejects it.
+    pub shifted_pks: Vec<(PublicKey, usize)>,
 }
 
 pub fn pool() -> &'static Pool {
@@ -99,11 +103,63 @@ pub fn pool() -> &'static Pool {
                 torsion.push(t);
             }
         }
-        Pool { sks, pks, msgs, msg_class, sigs, gts, off_subgroup: off, torsion }
+        // G1 points on the curve but outside the subgroup, turned into torsion points
+        let mut shifted_pks = vec![];
+        let mut tries = 0;
+        while shifted_pks.len() < 3 && tries < 4096 {
+            tries += 1;
+            let mut b = [0u8; 48];
+            b.copy_from_slice(&rng.bytes(48));
+            b[0] = (b[0] & 0x1f) | 0x80;
+            if let Ok(pt) = PublicKey::from_bytes_unchecked(&b) {
+                if !pt.is_valid() {
+                    let mut t = pt.clone();
+                    t.scalar_multiply(&r_minus_1);
+                    t += &pt;
+                    let k = shifted_pks.len() % NKEYS;
+                    let shifted = &pks[k] + &t;
+                    if !t.is_inf() && !shifted.is_valid() {
+                        shifted_pks.push((shifted, k));
+                    }
+                }
+            }
+        }
+        Pool { sks, pks, msgs, msg_class, sigs, gts, off_subgroup: off, torsion, shifted_pks }
     })
 }
 
-pub type Pair = (u8, u8); // (key index, message index)
+/// (key index, message index); key index 0..NKEYS-1 = pool keys, NKEYS = the point at
+/// infinity, NKEYS+1.. = pool keys shifted out of the subgroup by a torsion point
+pub type Pair = (u8, u8);
+
+pub fn key_of(k: u8) -> PublicKey {
+    let p = pool();
+    let k = k as usize;
+    if k < NKEYS {
+        p.pks[k].clone()
+    } else if k == NKEYS || p.shifted_pks.is_empty() {
+        p.pks[NKEYS].clone()
+    } else {
+        p.shifted_pks[(k - NKEYS - 1) % p.shifted_pks.len()].0.clone()
+    }
+}
+
+/// the share a signer contributes for one pair: the honest signature, or, for a shifted
+/// key, the honest secret key's signature over the message augmented with the shifted key
+fn share_of(k: u8, m: u8) -> Signature {
+    let p = pool();
+    let mi = m as usize % NMSGS;
+    if (k as usize) < NKEYS {
+        p.sigs[k as usize][mi].clone()
+    } else if k as usize == NKEYS || p.shifted_pks.is_empty() {
+        Signature::default()
+    } else {
+        let (spk, sk) = &p.shifted_pks[(k as usize - NKEYS - 1) % p.shifted_pks.len()];
+        let mut aug = spk.to_bytes().to_vec();
+        aug.extend_from_slice(&p.msgs[mi]);
+        chia_bls::sign_raw(&p.sks[*sk], &aug)
+    }
+}
 
 #[derive(Serialize, Deserialize, Clone, Debug, PartialEq)]
 pub enum SigSpec {
@@ -149,7 +205,9 @@ impl Query {
         self.pairs.iter().any(|p| p.0 >= INF)
     }
     fn feature(&self) -> &'static str {
-        if self.has_inf() {
+        if self.pairs.iter().any(|p| p.0 > INF) {
+            "key_outside_subgroup"
+        } else if self.has_inf() {
             "infinity_key"
         } else if matches!(self.sig, SigSpec::OffSubgroup(_) | SigSpec::AggPlusTorsion(..)) {
             "offsubgroup_sig"
@@ -189,9 +247,9 @@ impl Query {
         let p = pool();
         match &self.sig {
             SigSpec::OffSubgroup(i) => p.off_subgroup[*i as usize % p.off_subgroup.len().max(1)].clone(),
-            SigSpec::Agg(signed) => aggregate(signed.iter().map(|(k, m)| &p.sigs[*k as usize % NKEYS][*m as usize % NMSGS])),
+            SigSpec::Agg(signed) => aggregate(signed.iter().map(|(k, m)| share_of(*k, *m))),
             SigSpec::AggPlusTorsion(signed, i) => {
-                let mut s = aggregate(signed.iter().map(|(k, m)| &p.sigs[*k as usize % NKEYS][*m as usize % NMSGS]));
+                let mut s = aggregate(signed.iter().map(|(k, m)| share_of(*k, *m)));
                 if !p.torsion.is_empty() {
                     s.aggregate(&p.torsion[*i as usize % p.torsion.len()]);
                 } else {
@@ -205,7 +263,7 @@ impl Query {
         let p = pool();
         self.pairs
             .iter()
-            .map(|(k, m)| (p.pks[(*k as usize).min(NKEYS)].clone(), p.msgs[*m as usize % NMSGS].clone()))
+            .map(|(k, m)| (key_of(*k), p.msgs[*m as usize % NMSGS].clone()))
             .collect()
     }
 }
@@ -244,7 +302,7 @@ fn run_op(cache: &BlsCache, op: &Op) -> OpResult {
         Op::Evict(pairs) => {
             let v: Vec<(PublicKey, Vec<u8>)> = pairs
                 .iter()
-                .map(|(k, m)| (p.pks[(*k as usize).min(NKEYS)].clone(), p.msgs[*m as usize % NMSGS].clone()))
+                .map(|(k, m)| (key_of(*k), p.msgs[*m as usize % NMSGS].clone()))
                 .collect();
             cache.evict(v.iter().map(|(pk, m)| (pk, m.as_slice())));
             OpResult::Unit
@@ -314,6 +372,7 @@ impl C15 {
             if let Some(q) = op_query(op) {
                 match q.feature() {
                     "infinity_key" => c.inc("probe.query_with_infinity_key"),
+                    "key_outside_subgroup" => c.inc("probe.query_with_key_outside_subgroup"),
                     "offsubgroup_sig" => c.inc("probe.query_with_offsubgroup_signature"),
                     "empty_query" => c.inc("probe.empty_query"),
                     "repeated_pair" => c.inc("probe.query_with_repeated_pair"),
@@ -572,7 +631,11 @@ impl C15 {
 fn gen_pairs(rng: &mut Rng, keyspace: usize, n: usize, allow_inf: bool) -> Vec<Pair> {
     (0..n)
         .map(|_| {
-            let k = if allow_inf && rng.chance(1, 12) { INF } else { rng.usize_below(keyspace) as u8 };
+            let k = if allow_inf && rng.chance(1, 12) {
+                if rng.chance(1, 3) { INF + 1 + rng.below(3) as u8 } else { INF }
+            } else {
+                rng.usize_below(keyspace) as u8
+            };
             (k, rng.usize_below(NMSGS) as u8)
         })
         .collect()
@@ -594,7 +657,8 @@ pub fn gen_query(rng: &mut Rng, keyspace: usize) -> Query {
             pairs[2] = pairs[0]; // three times
         }
     }
-    let honest: Vec<Pair> = pairs.iter().copied().filter(|p| p.0 < INF).collect();
+    // everything a signer can contribute to: all pairs except those with the infinity key
+    let honest: Vec<Pair> = pairs.iter().copied().filter(|p| p.0 != INF).collect();
     let sig = match rng.below(17) {
         0..=8 => SigSpec::Agg(honest),
         9 => {
